@@ -425,13 +425,19 @@ nfa, with no epsilon transition
                 if i != j:
                     enfas[j].remove_final_state(final_states[i])
         regex_l = []
-        for enfa in enfas:
-            # pylint: disable=protected-access
-            enfa._remove_all_basic_states()
-            # pylint: disable=protected-access
-            regex_sub = enfa._get_regex_simple()
-            if regex_sub:
-                regex_l.append(regex_sub)
+        for enfa_final in enfas:
+            for start_state in self._start_state:
+                # One start state at a time
+                enfa = enfa_final.copy()
+                for other_start_state in self._start_state:
+                    if other_start_state != start_state:
+                        enfa.remove_start_state(other_start_state)
+                # pylint: disable=protected-access
+                enfa._remove_all_basic_states()
+                # pylint: disable=protected-access
+                regex_sub = enfa._get_regex_simple()
+                if regex_sub:
+                    regex_l.append(regex_sub)
         res = "+".join(regex_l)
         return Regex(res)
 
